@@ -373,6 +373,43 @@ Section Refined.
           exists r, [], env, ord, rc. split; [reflexivity|]. split; [exact Hst|]. exact Hq.
   Qed.
 
+  (** The other direction (the property's second clause, on the level of the reports): once 2/3 of
+      the snapshot stand behind ONE report that is not a transaction proof with a successful receipt
+      -- a failed receipt, a proof without receipt, an error proof, another proof type -- no minority
+      and no ordering of the reports makes attestRouter commit a success follow-up.  Needs a
+      well-formed snapshot (positive total = sum of the non-negative shares): two disjoint sets of
+      validators cannot both hold 2/3. *)
+  Theorem agreed_failure_report_blocks_success : forall s id env ord vals p,
+    Gen.C07.bth_covers_full_tx = true -> Gen.C07.bth_covers_full_receipt = true ->
+    rinv s -> order_ok ord ->
+    let sn := snapshot_of (world _ _ _ _ _ _ (abs s)) in
+    snapshot_ok sn ->
+    NoDup vals -> (forall u, In u vals -> In (u, p) (reports_of s id)) ->
+    2 * sn_total sn <= 3 * power sn vals ->
+    (forall t r, p = PTx t (Some r) -> r_status r <> receipt_status_successful) ->
+    hash_collision hash \/ enc_collision T enc \/
+    effects _ _ _ _ _ _ (abs (rstep s (RAttest id env ord))) = effects _ _ _ _ _ _ (abs s).
+  Proof.
+    intros s id env ord vals p Hct Hcr Hri Ho sn (Hpos & Htot & Hnn) Hnd Hrep Hq Hfail.
+    destruct (rstep_spec s (RAttest id env ord) Hri) as [_ [Heq|(e & env' & ord' & Hop & _ & Hel)]];
+      [right; right; exact Heq|].
+    inversion Hop as [[Hid Henv Hord]]. subst env' ord'. rewrite <- Hid in Hel.
+    unfold AttestEvidence.elected in Hel.
+    destruct (elect_spec T T_eq_dec keqb hash keqb_spec enc ord _ _ _ _ Hct Hcr Ho (proj2 Hri _) Hel)
+      as (rc & Hst & [Hc|[Hc|(vals' & Hnd' & Hrep' & Hq')]]); [now left | right; now left |].
+    exfalso. fold sn in Hq'.
+    assert (Hdisj : forall u, In u vals -> ~ In u vals').
+    { intros u Hu Hu'. apply Hrep in Hu. apply Hrep' in Hu'.
+      pose proof (nodup_fst_inj T _ _ _ (proj2 Hri id) Hu Hu' eq_refl) as Hpe. inversion Hpe as [Hp].
+      exact (Hfail _ _ Hp Hst). }
+    assert (Hnd2 : NoDup (vals ++ vals')).
+    { clear - Hnd Hnd' Hdisj. induction vals as [|a r IH]; [exact Hnd'|]. simpl. inversion Hnd; subst.
+      constructor.
+      - intros Hc. apply in_app_or in Hc as [Hc|Hc]; [contradiction|]. exact (Hdisj a (or_introl eq_refl) Hc).
+      - apply IH; [assumption|]. intros u Hu. apply Hdisj. now right. }
+    pose proof (power_le_total sn _ Hnn Hnd2) as Hle. rewrite power_app in Hle. lia.
+  Qed.
+
   Lemma snoc_split {A} : forall (l a b : list A) o x,
     l ++ [o] = a ++ x :: b -> (b = [] /\ l = a /\ o = x) \/ (exists b', b = b' ++ [o] /\ l = a ++ x :: b').
   Proof.
